@@ -491,3 +491,49 @@ def rule_copy_siblings(chk, P, rid, floor=100):
             oc = sorted('%s x%d' % (k, v) for k, v in (other[1][0] - ft[0]).items()) + sorted('%s x%d' % (k, v) for k, v in (other[1][1] - ft[1]).items())
             r.bad('%s:%s' % (key[0], m.name), m.loc, '%s differs from its copy %s: only here %s; only there %s' % (
                 m.name, other[0].name, dc[:4] or '-', oc[:4] or '-'))
+
+
+# ------------------------------------------------------------------------------------------------------------------------------
+# X4: field-by-field copies between records of the same shape
+
+def _field_path(e):
+    """(record, field, first constant index or None) of the outermost member access of an lvalue/rvalue like s.f[3][i], p->f"""
+    e = cf.strip_casts(e)
+    idx = []
+    while isinstance(e, dict) and e.get('k') == 'idx':
+        idx.append(cf.evalc(e['i']))
+        e = cf.strip_casts(e['b'])
+    if isinstance(e, dict) and e.get('k') == 'mem':
+        consts = [x for x in reversed(idx) if x is not None]
+        return e.get('rec') or '', e.get('f') or '', (consts[0] if consts else None)
+    return None
+
+
+def rule_field_copies(chk, P, rid, floor=100):
+    r = chk.rule(rid, 'in a block that copies one record field by field into a record of another type (three or more statements copying a field '
+                      'onto the field of the same name), every statement copies a field, and a constant element, onto itself: '
+                      '`dst.fR2 = src.fR1[i]` is a copy-paste slip', floor=floor)
+    seen = set()
+    for tu in P.tus():
+        for f in P.funcs(tu):
+            if (f.name, f.loc) in seen:
+                continue
+            seen.add((f.name, f.loc))
+            pairs = {}
+            for b, i, ev in f.events(('assign',)):
+                if ev.get('op') not in (None, '='):
+                    continue
+                l, rr = _field_path(ev['lhs']), _field_path(ev.get('rhs') or {})
+                if not l or not rr or not l[0] or not rr[0] or l[0] == rr[0]:
+                    continue
+                pairs.setdefault((l[0], rr[0]), []).append((ev, l, rr))
+            for (lt, rt), lst in pairs.items():
+                same = sum(1 for ev, l, rr in lst if l[1] == rr[1])
+                if same < 3:
+                    continue
+                for ev, l, rr in lst:
+                    ok = l[1] == rr[1] and (l[2] is None or rr[2] is None or l[2] == rr[2])
+                    r.check(ok, '%s@%s' % (f.name, ev['loc'].split('/')[-1]), ev['loc'],
+                            '%s: %s = %s copies field `%s`%s of %s onto field `%s`%s of %s in a block of same-name field copies' % (
+                                f.name, guards.lv(ev['lhs']), guards.lv(ev['rhs']), rr[1], '' if rr[2] is None else '[%d]' % rr[2], rt,
+                                l[1], '' if l[2] is None else '[%d]' % l[2], lt))
